@@ -682,7 +682,7 @@ impl Heap {
       return;
     }
     let sweep_start = self.sweep_index;
-    let mut sweep_end = self.sweep_index + work_unit;
+    let mut sweep_end = self.sweep_index.saturating_add(work_unit);
     let max_sweep = self.str_pointer_table.len();
     if sweep_end >= max_sweep {
       self.sweep_index = 0;
